@@ -80,6 +80,17 @@ CLAIMS = {
    text=('Every accepted Propose / ReadIndex / config change / RequestSnapshot / QueryRaftLog is followed to quiescence (after StopShard / NodeHost.Close returned): exactly one terminal result, at most one commit notification before it, '
          'Completed carries the requester own id and follows the local apply, Dropped/Rejected proposals are never applied. Short timeouts, immediate Release and reuse, NotifyCommit on/off, leader isolation, stops and closes under load, delays at the hand-over windows.'),
    note=E2_NOTE + '; promptness of expiry is recorded, not decided (no logical tick is observable at the API)'),
+
+ 'C14': dict(engine='snapcheck', category='exploration', design='DESIGN.md section 4 C14',
+   technique='runtime monitoring of the real snapshot writer / reader / validator on generated payloads around the block boundaries, with exhaustive bit flips of header, block checksums and tail and sampled payload flips, truncations and extensions of chunk streams',
+   text=('Random payload lengths around the 2 MB block size and its multiples, random write and read segmentations, both compression settings, both format versions on the read side: bytes read back are identical, recorded size and checksum match the file, shrunk files reload as empty payload. '
+         'Every flipped bit either fails the load or yields the original bytes; the stream validator accepts exactly what the writer produces for any chunking and rejects every truncation, extension and covered flip.'),
+   note='the header checksum slot of files written by SnapshotWriter is zero by design (the reader skips the check): flips there are counted, not judged; input space sampled around the boundaries'),
+ 'C15': dict(engine='snapcheck', category='exploration', design='DESIGN.md section 4 C15',
+   technique='runtime monitoring: the real sender-side splitter and receiver (transport.Chunk) driven with perturbed chunk scripts against a predictor written from the statement; directory contents compared byte for byte',
+   text=('192k scripts per quick run: snapshots with 0-3 external files and streamed snapshots are split by the real sender code; drop / swap / duplicate / interleave (two senders, two indexes) / corrupt / restart / wrong deployment id or version / removed replica / path escape / ticks anywhere; '
+         'the receiver must finalize iff the accepted chunks form the complete valid sequence, notify exactly once, produce byte-identical files, leave no temporary directory after the timeout, and never create a file outside the snapshot directory.'),
+   note='no network in this check (TCP framing is C13); the parallel feed variant is not built with -race'),
  'C16': dict(engine='rsmcheck', category='fault_enumeration', design='DESIGN.md section 4 C16',
    technique='fault enumeration at run time: power loss at every file-system operation of the real snapshotter sequences (save+commit, receive+record+flag removal, shrink, compact, racing local save / incoming snapshot) followed by start-up cleanup and a directory / record / load oracle',
    text=('For every operation k of every sequence: crash, ResetToSyncedState, reopen log store, processOrphans; then only complete snapshot directories remain, the recorded snapshot exists and validates, no temporary or flagged directory is left, the record never goes backwards, Load reproduces the saved state. '
@@ -104,6 +115,12 @@ CLAIMS = {
    technique='runtime monitoring: model-based differential test of the real entryLog/inMemory over the real LogReader against a reference slice after every operation',
    text=('Random operation sequences (appends, conflicting follower appends above commit, commit advances, Update/Commit cycles with lagging apply acknowledgements, snapshot restores, LogReader compaction, in-memory resizing, late persistence acknowledgements); after each operation first/last index, term(i), ranges with size limits, entries to save and entries to apply are compared with the reference.'),
    note='the persistent store under the LogReader is a harness ILogDB (real stores are C09/C10); sequences are generated, not enumerated'),
+
+ 'C20': dict(engine='clusterrun', category='exploration', design='DESIGN.md section 4 C20',
+   technique='runtime monitoring of the whole repair procedure on real NodeHosts: export, stop, invalid imports (refusal + unchanged file tree hash), valid import on every listed host, restart, then membership / state / leader / new proposal checks; corrupted exports must be refused or load exactly the exported state',
+   text=('PRNG-chosen history, export point, store, state machine kind and new member list (subset of old members, old + entirely new ids on spare hosts, single member), optional removed and non-voting members before the export; '
+         'six kinds of invalid request are tried before the valid one; after the restart every listed replica must hold exactly the exported state, report exactly the given members with the unlisted old ones removed, elect a leader and complete a proposal.'),
+   note=E2_NOTE + '; the exported state is reconstructed from the apply records of the exporting replica up to the returned index'),
 }
 
 NOT_YET = {}
@@ -148,9 +165,10 @@ def main():
         'engines': [
             {'name': 'raftsim', 'path': 'harness/raftsim, harness/cmd/raftsim', 'serves_properties': ['C01', 'C02', 'C03', 'C06', 'C07', 'C17', 'C18'], 'kind_free_text': 'E1: deterministic single-goroutine simulation of a shard of real raft.Peer + LogReader + rsm.StateMachine replicas with global-view monitors'},
             {'name': 'codeccheck', 'path': 'harness/cmd/codeccheck', 'serves_properties': ['C13'], 'kind_free_text': 'E4: codec round-trip / size-bound / frame corruption monitor'},
-            {'name': 'clusterrun', 'path': 'harness/cluster, harness/cmd/clusterrun', 'serves_properties': ['C01', 'C02', 'C04', 'C08', 'C11', 'C12'], 'kind_free_text': 'E2: real NodeHosts in-process, fault injecting transport, strict in-memory FS with power-loss crashes, instrumented state machines, request watchers'},
+            {'name': 'clusterrun', 'path': 'harness/cluster, harness/cmd/clusterrun', 'serves_properties': ['C01', 'C02', 'C04', 'C08', 'C11', 'C12', 'C20'], 'kind_free_text': 'E2: real NodeHosts in-process, fault injecting transport, strict in-memory FS with power-loss crashes, instrumented state machines, request watchers'},
             {'name': 'rsmcheck', 'path': 'harness/cmd/rsmcheck', 'serves_properties': ['C05', 'C07', 'C08', 'C16'], 'kind_free_text': 'E5: real rsm.StateMachine / snapshotter driven with synthetic streams, reference models, twins, crash enumeration'},
             {'name': 'storecheck', 'path': 'harness/cmd/storecheck', 'serves_properties': ['C09', 'C10'], 'kind_free_text': 'E3: real ILogDB implementations against a reference model, crash and error injection'},
+            {'name': 'snapcheck', 'path': 'harness/cmd/snapcheck', 'serves_properties': ['C14', 'C15'], 'kind_free_text': 'E4: snapshot file reader/writer/validator and chunk receiver monitors'},
             {'name': 'logview', 'path': 'harness/cmd/logview', 'serves_properties': ['C19'], 'kind_free_text': 'E6: entryLog + LogReader against a reference slice'},
         ],
         'checks': checks,
